@@ -204,6 +204,24 @@ theorem frechet2_correct (pf qf : Nat → Pt) (n m : Nat) :
       some (frechetRec ile (fun i j => sqDist (pf i) (qf j)) n m) :=
   frechetDP_eq ile sqDist pf qf n m
 
+theorem list_eq_map_range {α : Type} (l : List α) (x : α) :
+    l = (List.range l.length).map (fun i => l.getD i x) := by
+  apply List.ext_getElem
+  · simp
+  · intro i h1 h2
+    simp [List.getD, List.getElem?_eq_getElem h1]
+
+/-- the same for arbitrary non-empty vertex lists (indices read with `getD`) -/
+theorem frechet2_correct_lists (p : Pt) (ps : List Pt) (q : Pt) (qs : List Pt) :
+    frechet2 (p :: ps) (q :: qs) =
+      some (frechetRec ile (fun i j => sqDist ((p :: ps).getD i p) ((q :: qs).getD j q)) ps.length qs.length) := by
+  have h := frechet2_correct (fun i => (p :: ps).getD i p) (fun j => (q :: qs).getD j q) ps.length qs.length
+  have e1 := list_eq_map_range (p :: ps) p
+  have e2 := list_eq_map_range (q :: qs) q
+  simp only [List.length_cons] at e1 e2
+  rw [← e1, ← e2] at h
+  exact h
+
 /-! ## branch and bound (CORE) -/
 
 /-- **`bb_returns_min`** — the best-first branch-and-bound search of `TemplateSTRtreeDistance::nearestNeighbour`
